@@ -1,4 +1,6 @@
 """C04: no returned route or search-tree entry uses an edge or turn the query is forbidden to use."""
+import glob
+import json
 import os
 from lib import vf
 
@@ -13,29 +15,135 @@ RULE_FRONTIER = (
     "nesting), edge cuts; then random configurations. I vs M bit-exact; S = admissibility from the raw tables over exact "
     "rationals (undecided within 1e-9 of a limit). non-trivial = the model admits some and refuses some probed edge, or "
     "the build is refused; distinct by (configuration, query, cut)")
+RULE_SEARCH = (
+    "searches of the real core code (Dijkstra, A* with weight factors {default,0,1/2,1,3} and zero/exact/half/admissible/"
+    "inadmissible heuristic tables, vertex- and edge-oriented, forward and reverse, one case in twelve under KspSingleVia) "
+    "on searchkit worlds (boundary shapes, random digraphs n 3..40) whose FrontierModel is the REAL one (road class / "
+    "vehicle restriction / turn restriction / combined, built from files and query JSON, sometimes under "
+    "EdgeCutFrontierModel; about a quarter of the edges refused, restricted turns among adjacent pairs). I vs M: status, "
+    "iterations, trees, routes of Model/Search.v run with the Model/Frontier.v frontier (skipped on TIE and for KSP); "
+    "I vs S: raw-table checker in Coq on the implementation's trees and routes - no inadmissible edge, no restricted "
+    "pair in travel order. The four known-finding witnesses of corpus/C04 run first. non-trivial = the frontier refuses "
+    "some edge or has turn pairs and the search returns >= 3 tree entries, a route of >= 2 edges, or no path; "
+    "distinct by (world, query, configuration)")
+
+# REJECT reason of the S line -> known-finding class
+CLASSES = [
+    ("REJECT(reverse-turn", "K_reverse_turn"),
+    ("REJECT(ksp-turn", "K_ksp_turn"),
+    ("REJECT(query-edge", "K_query_edges"),
+    ("REJECT(query-turn", "K_query_edges"),
+]
 
 
 def classify(case, i, m, s):
+    """class predicates: the checker (Coq, raw tables) names the clause that fails and whether only the query's own
+    edges are involved; K_reopen additionally needs the MODEL's run of the case to re-open a vertex"""
+    if not s or not s.startswith("REJECT("):
+        return None
+    if not case.get("ksp") and m is not None and m != i and m != "TIE":
+        return None      # the model disagrees with the implementation: not a known class, report it
+    if s.startswith("REJECT(turn;reopen=T"):
+        q = case.get("query", {})
+        if q.get("dir") == "forward" and not case.get("ksp"):
+            return "K_reopen"
+        return None
+    for prefix, fid in CLASSES:
+        if s.startswith(prefix):
+            if fid == "K_reverse_turn" and case.get("query", {}).get("dir") != "reverse":
+                return None
+            if fid == "K_ksp_turn" and not case.get("ksp"):
+                return None
+            if fid == "K_query_edges" and case.get("query", {}).get("orient") != "edge":
+                return None
+            return fid
     return None
+
+
+def skip_ties(r):
+    """the model prints TIE when its run popped among equal priorities (the priority_queue crate's choice is
+    unspecified): the model line of such a case is not compared, the checker line (S) still is"""
+    M, I = r.model.setdefault("M", {}), r.impl.get("I", {})
+    k = 0
+    for cid, m in list(M.items()):
+        if m == "TIE" and cid in I:
+            M[cid] = I[cid]
+            k += 1
+    # KSP cases have no model line
+    for cid, c in r.cases.items():
+        if c.get("ksp") and cid not in M and cid in I:
+            M[cid] = I[cid]
+    return k
 
 
 def run(chk):
     chk.coverage["trusted_base"] = [
         "Coq 8.16.1 kernel + vm_compute",
-        "hand-written models coq/Model/Frontier.v and coq/Model/Search.v (tied by this correspondence run)",
+        "hand-written models coq/Model/Frontier.v and coq/Model/Search.v (+ the table-driven instantiation "
+        "coq/Model/SearchRun.v of the C01 work item), tied by this correspondence run",
         "unit conversion tables coq/Gen/UnitTables.v regenerated from the Rust sources (property C09)",
         "serde_json / csv decoding of well-formed files is as the model's decoders say (exercised, not proved)",
-        "Rust harness harness/src/bin/c04.rs and this driver"]
+        "priority_queue crate: pop returns an entry of minimal priority (ties unspecified, such cases are compared by "
+        "the checker only)",
+        "Rust harness harness/src/bin/c04.rs, harness/src/searchkit.rs and this driver"]
     chk.assumptions = [
         "restriction limits and vehicle quantities are finite numbers (JSON and the CSV round trip cannot carry NaN or infinities)",
-        "turn restrictions are read in search order: the pair tested is (edge through which the expanded vertex was reached, candidate edge)"]
+        "a restricted turn (a, b) is a pair driven a then b (travel order); routes of a reverse search are read backwards",
+        "the restricted-turn clause is proved for runs that never re-open a vertex (no_reopen), forward direction, "
+        "vertex-oriented queries; outside: known findings K_reopen, K_reverse_turn, K_query_edges, K_ksp_turn",
+        "KspSingleVia and Yens are exercised on the implementation only (no model of the KSP drivers here: property C13)"]
+    # the unit conversion table the frontier model reads is regenerated from the Rust sources on every run (C09 checks it)
+    tres = vf.run_translators(which=["units"]).get("units", {"ok": False, "msg": "translator module tr_units.py missing"})
+    chk.coverage["translator"] = {k: tres.get(k) for k in ("ok", "msg", "digest")}
+    if not tres.get("ok"):
+        chk.violation("broken-correspondence", "translator", {"translator": "tr_units", "error": tres.get("msg")}, tres.get("msg"),
+                      "model/unit/*_unit.rs have the shape the translator knows (fail closed)", found=False, key="translator")
     chk.proofs(extra_targets=["Model/FrontierRun.vo"])
     binp = vf.build_harness("c04")
     thorough = chk.tier != "quick"
-    n = 8000 if thorough else 700
-    r = vf.run_stream(binp, "frontier", n, chk.seed, os.path.join(chk.outdir, "frontier"), replay=chk.replay)
-    chk.add_stream(r, RULE_FRONTIER)
-    vf.compare(chk, r, classify=classify, binpath=binp)
+    replay_stream = None
+    if chk.replay:
+        try:
+            rj = json.load(open(chk.replay))
+            replay_stream = "search" if "world" in rj.get("case", {}) else "frontier"
+        except Exception:  # noqa
+            replay_stream = "frontier"
+
+    if replay_stream in (None, "frontier"):
+        n = 8000 if thorough else 700
+        r = vf.run_stream(binp, "frontier", n, chk.seed, os.path.join(chk.outdir, "frontier"), replay=chk.replay)
+        chk.add_stream(r, RULE_FRONTIER)
+        vf.compare(chk, r, classify=classify, binpath=binp)
+
+    if replay_stream in (None, "search"):
+        # the witnesses of the known findings run first, so that each KNOWN-FINDING line prints on every run
+        if not chk.replay:
+            for f in sorted(glob.glob(os.path.join(vf.ROOT, "corpus", "C04", "*.json"))):
+                name = os.path.basename(f)[:-5]
+                rc = vf.run_stream(binp, "search", 1, chk.seed, os.path.join(chk.outdir, "corpus_" + name), shards=1, replay=f)
+                rc.name = "search"
+                skip_ties(rc)
+                chk.coverage["streams"].setdefault("corpus", {"cases": 0, "rule": "corpus/C04/*.json replayed"})["cases"] += 1
+                vf.compare(chk, rc, classify=classify, binpath=binp, stream_label="corpus:" + name)
+        n = 6000 if thorough else 450
+        r = vf.run_stream(binp, "search", n, chk.seed, os.path.join(chk.outdir, "search"), replay=chk.replay)
+        nt = skip_ties(r)
+        r.stats.setdefault("hist", {})["model_TIE_skipped"] = nt
+        chk.add_stream(r, RULE_SEARCH)
+        vf.compare(chk, r, classify=classify, binpath=binp)
+
+    # one KNOWN-FINDING line per class: the first case met (the corpus witness) and the number of further cases
+    per, order = {}, []
+    for line in chk.known:
+        fid = line.split(" ")[2].rstrip(":")
+        if fid not in per:
+            per[fid] = [line, 0]
+            order.append(fid)
+        else:
+            per[fid][1] += 1
+    chk.known = [per[f][0] + (" (+%d more cases of this class in this run)" % per[f][1] if per[f][1] else "") for f in order]
+    chk.coverage["known_finding_cases"] = {f: per[f][1] + 1 for f in order}
+
     if chk.broken_obligation:
         chk.violation("broken-obligation", "proofs", {"obligations": chk.broken_obligation}, "does not check", "Qed",
                       found=False, key="obligation")
